@@ -255,6 +255,12 @@ def lfpSelf (fuel : Nat) (lk : String → List Tuple) (h : String) (cs : List Ru
   -- over all clauses; only if that count is below the number of clauses are the clauses split into
   -- base and recursive ones. Otherwise ("all inputs reference the relation") the stored facts of the
   -- head are the base case and every clause is iterated (code_generator:344-359).
+  -- A recursive clause with an aggregate head takes the min/max "aggregation in loop" path
+  -- (code_generator:1039-1187), where the clause body with the aggregate stripped is concatenated
+  -- with the base case *without projection to the head*; the loop variable then carries tuples of
+  -- the body's arity and column indices no longer mean what the builder intended. That path is
+  -- outside this model (`none` → `err:fragment`); it is reported by the Spec search of C07.
+  if cs.any (fun r => r.scans.contains h && r.hasAgg) then none else
   let occ := (cs.flatMap (fun r => r.body.filterMap (fun l => l.atom?.map (·.rel)))).count h
   let split := occ < cs.length
   let base := cs.filter (fun r => !r.scans.contains h)
